@@ -113,7 +113,14 @@ func init() {
 			if !isSym(a[0]) && !isSym(a[1]) {
 				return math.Min(a[0].(float64), a[1].(float64))
 			}
-			return mkval(fr.i.ex.ctx.FMin(fr.i.term(a[0]), fr.i.term(a[1])), types.Float64)
+			c := fr.i.ex.ctx
+			r := mkval(c.FMin(fr.i.term(a[0]), fr.i.term(a[1])), types.Float64)
+			if rs, ok := r.(*sym); ok {
+				if ao, bo := intOrigOf(c, a[0]), intOrigOf(c, a[1]); ao != nil && bo != nil {
+					rs.intOrig = c.Ite(c.Cmp(smt.OSlt, ao, bo), ao, bo)
+				}
+			}
+			return r
 		},
 		"math.Abs": func(fr *frame, a []value) value {
 			if f, ok := a[0].(float64); ok {
@@ -165,6 +172,9 @@ func (s *scheduler) live() int {
 }
 
 func (i *interpreter) fpUn(op smt.Op, x value) value {
+	if s, ok := x.(*sym); ok && s.intOrig != nil {
+		return s // ceil/floor of an integer-valued float
+	}
 	if f, ok := x.(float64); ok {
 		switch op {
 		case smt.OFCeil:
